@@ -73,6 +73,7 @@ mod internal;
 /// compiled with `--cfg cfb_verif`.
 #[cfg(cfb_verif)]
 pub mod verif {
+    pub use crate::internal::sync::set_lock_jitter;
     pub use crate::internal::sync::{
         current_thread_id, set_lock_tracing, take_lock_events, LockEvent,
     };
